@@ -563,6 +563,11 @@ func (s *scope) createInstance(descriptor *Descriptor) (any, error) {
 				primaryService = value
 			}
 
+			// An output whose registration was removed before Build is not stored
+			if regDescriptor != nil && regDescriptor != descriptor && !s.rootProvider.isRegistered(regDescriptor) {
+				continue
+			}
+
 			if regDescriptor == nil {
 				return nil, &ResolutionError{
 					ServiceType: reg.Type,
@@ -603,6 +608,11 @@ func (s *scope) createInstance(descriptor *Descriptor) (any, error) {
 			serviceDescriptor := descriptor.outputForReturn(ret.Index)
 			if serviceDescriptor == nil {
 				serviceDescriptor = s.rootProvider.findDescriptor(ret.Type, nil)
+			}
+
+			// An output whose registration was removed before Build is not stored
+			if serviceDescriptor != nil && serviceDescriptor != descriptor && !s.rootProvider.isRegistered(serviceDescriptor) {
+				continue
 			}
 
 			if serviceDescriptor == nil {
@@ -649,7 +659,7 @@ func (s *scope) setAliasedInstance(descriptor *Descriptor, instance any) {
 	s.setInstance(descriptor, key, instance)
 
 	for _, alias := range descriptor.outputs {
-		if alias == nil || alias == descriptor {
+		if alias == nil || alias == descriptor || !s.rootProvider.isRegistered(alias) {
 			continue
 		}
 
